@@ -2,6 +2,7 @@
 
 import concurrent.futures.process
 import math
+import sys
 from collections import Counter, defaultdict
 from multiprocessing import get_all_start_methods
 from pathlib import Path
@@ -15,7 +16,7 @@ from .runners import ForkRunnerBackend, SerialRunnerBackend, SpawnRunnerBackend
 from .storage import LocalStorage, NullStorage
 from .tasks import get_direct_dependencies, get_direct_dependency_instances
 from .types import LabContext, ResultMeta, ResultT, RunnerBackend, Storage, Task, TaskT, is_task, is_task_type
-from .utils import OrderedSet, base_tqdm, is_ipython, logger, tqdm, tqdm_notebook
+from .utils import LoggerFileProxy, OrderedSet, base_tqdm, is_ipython, logger, tqdm, tqdm_notebook
 
 
 def check_tasks(tasks: Sequence[Task]) -> None:
@@ -238,7 +239,11 @@ class TaskCoordinator:
             if task_monitor is not None:
                 task_monitor.update()
 
-        redirected_loggers = [] if self.lab.notebook else [logger]
+        # Output captured inside a task subprocess is itself sent to
+        # the logger, so redirecting the logger to tqdm there would
+        # feed every message back into the captured stream forever.
+        in_task_subprocess = isinstance(sys.stderr, LoggerFileProxy)
+        redirected_loggers = [] if (self.lab.notebook or in_task_subprocess) else [logger]
         with logging_redirect_tqdm(loggers=redirected_loggers):
             try:
                 try:
